@@ -220,6 +220,101 @@ def make_cells(chk):
     return cells
 
 
+# ---------------------------------------------------------------------------
+# multi-transaction sessions (one connection, no RSET between the transactions)
+
+SESSION_KINDS = ["ok", "oversize", "unparsable", "norcpt", "limit", "unknown"]
+SESSION_MAX_SIZE = 3000
+
+
+def make_sessions(chk):
+    """-> list of sessions; a session = list of cells (transactions) sharing a connection and a configuration.
+    First transaction: accepted, or refused in each possible way (over size -> 552 per recipient, unparsable ->
+    554 per recipient, no accepted recipient -> DATA 503, recipient limit reached, unknown user under
+    reject_unknown_user); then, WITHOUT RSET, a second transaction to different recipients, and a third."""
+    rng = chk.rng
+    nfresh = itertools.count()
+
+    def fresh():
+        return "v%d" % next(nfresh)
+
+    pools = [
+        [("existing", "TO:<alice@example.com>", "alice@example.com"), ("role", "TO:<support@example.com>", "support@example.com")],
+        [("existing_lc_to", "to:<bob@example.com>", "bob@example.com"), ("existing_sp", "TO: <carol@other.org>", "carol@other.org")],
+        [("role_same_local_as_user", "TO:<alice@other.org>", "alice@other.org"),
+         ("like_role_existing_user", "TO:<support_team@example.com>", "support_team@example.com")],
+    ]
+
+    def block(kind, bi, cfg):
+        pool = list(pools[bi % 3])
+        f = fresh()
+        newu = ("unknown", "TO:<%s@example.com>" % f, "%s@example.com" % f)
+        spam = rng.choice(SPAM_VARIANTS)
+        body, well = "hello %d\r\n" % bi, True
+        if kind == "ok":
+            lines = rng.sample(pool, rng.randint(1, 2)) + ([newu] if rng.random() < 0.5 else [])
+        elif kind == "oversize":
+            lines = rng.sample(pool, rng.randint(1, 2))
+            body = ("x" * 70 + "\r\n") * 50
+        elif kind == "unparsable":
+            lines = rng.sample(pool, rng.randint(1, 2))
+            well = False
+        elif kind == "norcpt":
+            lines = [("not_listed", "TO:<%s@elsewhere.net>" % f, "%s@elsewhere.net" % f),
+                     ("odd_no_at", "TO:<postmaster>", "postmaster")][:rng.randint(1, 2)]
+        elif kind == "limit":
+            lines = pool + [newu, pool[0]]
+        else:   # unknown
+            lines = [newu, pool[0], ("unknown", "TO:<%sx@other.org>" % f, "%sx@other.org" % f)]
+        raw, hs = build_message(spam[1], body=body, wellformed=well)
+        return {"cfg": cfg, "lines": lines, "raw": raw, "hs": hs, "spam": spam[0], "kind": kind}
+
+    pairs = [(a, b) for a in SESSION_KINDS for b in SESSION_KINDS]
+    if chk.tier != "quick":
+        pairs = pairs * 8
+    sessions = []
+    for si, (k1, k2) in enumerate(pairs):
+        cfg = {"default_folder": rng.choice(["INBOX", "Archive", "Spam"]), "allowed_domains": ["example.com", "other.org"],
+               "reject_unknown_user": (k1 == "unknown" or k2 == "unknown" or rng.random() < 0.3),
+               "max_recipients": 2 if "limit" in (k1, k2) else rng.choice([2, 3, 100]), "max_size": SESSION_MAX_SIZE,
+               "quota_enabled": rng.random() < 0.15, "quota_limit": rng.choice([10, 1 << 30])}
+        kinds = [k1, k2, "ok"] if rng.random() < 0.7 else [k1, k2]
+        cells = [block(k, bi, cfg) for bi, k in enumerate(kinds)]
+        for bi, c in enumerate(cells):
+            c["conn"] = "s%d" % si
+            c["sess"] = "first" if bi == 0 else ("last" if bi == len(cells) - 1 else "mid")
+            c["cfgsym"] = {"session": kinds, "pos": bi, "ru": cfg["reject_unknown_user"], "mr": cfg["max_recipients"],
+                           "df": cfg["default_folder"], "q": cfg["quota_enabled"]}
+        for c in cells:
+            c["session_all"] = cells
+        sessions.append(cells)
+    return sessions
+
+
+def eval_sessions(groups):
+    """groups: list of lists of pcase terms -> positions of sessions the session model does not reproduce"""
+    if not groups:
+        return [], ""
+    body = C.COQ_CASE_HEADER + COQ_POLICY_DEFS
+    body += "Definition sessions : list (list pcase) := [\n%s].\n" % ";\n".join(C.coq_list(g) for g in groups)
+    body += "Definition sess_bad := Eval vm_compute in positions 0 (map session_ok sessions).\nPrint sess_bad.\n"
+    bad = []
+    CH = 150
+    for off in range(0, len(groups), CH):
+        chunk = groups[off:off + CH]
+        b = C.COQ_CASE_HEADER + COQ_POLICY_DEFS
+        b += "Definition sessions : list (list pcase) := [\n%s].\n" % ";\n".join(C.coq_list(g) for g in chunk)
+        b += "Definition sess_bad := Eval vm_compute in positions 0 (map session_ok sessions).\nPrint sess_bad.\n"
+        rc, log = C.coq_eval_cases("C17_sessions_%d" % (off // CH), b)
+        if rc != 0:
+            return None, log
+        sbad = parse_nat_list(log, "sess_bad")
+        if sbad is None:
+            return None, log
+        bad += [off + i for i in sbad]
+    return bad, ""
+
+
 # generous: they only matter when something hangs (a loaded machine must not look like a defect)
 T_STEP = 30000
 T_EOF = 45000
@@ -229,16 +324,31 @@ def world_timed_out(res):
     return any(isinstance(o, dict) and o.get("how") in ("timeout", "write-error") for o in res.get("obs", []))
 
 
+NOP = {"op": "sleep", "ms": 0}
+
+
 def cell_ops(i, cell):
-    conn = "l%d" % i
-    ops = [dict(op="lmtp_open", conn=conn, **cell["cfg"]),
-           dict(op="send", conn=conn, data="LHLO client.test\r\n", until="lmtp:1", timeout_ms=T_STEP),
-           dict(op="send", conn=conn, data="MAIL FROM:<s@sender.net>\r\n", until="lmtp:1", timeout_ms=T_STEP)]
+    """ops of one transaction; always the layout [open, LHLO, MAIL, RCPT*, DATA, body, close, view].
+    A cell of a multi-transaction session (cell["sess"] = first|mid|last) shares cell["conn"] with its
+    neighbours: only the first opens, only the last QUITs; in between the replies to the message are
+    delimited by the answer to a trailing NOOP ("250 OK"). No RSET between the transactions."""
+    sess = cell.get("sess")
+    conn = cell.get("conn") or "l%d" % i
+    if sess in (None, "first"):
+        ops = [dict(op="lmtp_open", conn=conn, **cell["cfg"]),
+               dict(op="send", conn=conn, data="LHLO client.test\r\n", until="lmtp:1", timeout_ms=T_STEP)]
+    else:
+        ops = [dict(NOP), dict(NOP)]
+    ops.append(dict(op="send", conn=conn, data="MAIL FROM:<s@sender.net>\r\n", until="lmtp:1", timeout_ms=T_STEP))
     for (_, args, _) in cell["lines"]:
         ops.append(dict(op="send", conn=conn, data=C.latin("RCPT " + args + "\r\n"), until="lmtp:1", timeout_ms=T_STEP))
     ops.append(dict(op="send", conn=conn, data="DATA\r\n", until="lmtp:1", timeout_ms=T_STEP))
-    ops.append(dict(op="send", conn=conn, data=C.latin(stuffed(cell["raw"]) + ".\r\nQUIT\r\n"), until="eof", timeout_ms=T_EOF))
-    ops.append(dict(op="close", conn=conn))
+    if sess in (None, "last"):
+        ops.append(dict(op="send", conn=conn, data=C.latin(stuffed(cell["raw"]) + ".\r\nQUIT\r\n"), until="eof", timeout_ms=T_EOF))
+        ops.append(dict(op="close", conn=conn))
+    else:
+        ops.append(dict(op="c17_send_marker", conn=conn, data=C.latin(stuffed(cell["raw"]) + ".\r\nNOOP\r\n"), marker="250 OK", timeout_ms=T_EOF))
+        ops.append(dict(NOP))
     ops.append(dict(op="c17_view"))
     return ops
 
@@ -272,10 +382,13 @@ def folder_counts(view):
 def observe(cell, obs, before, after):
     """-> dict(rcpt=[bool], flags=[bool per line: finally accepted], gains=[(store, folder)], users=[...], note)"""
     nl = len(cell["lines"])
+    mail_ok = code(obs[2].get("recv", "")) == 250
     rc = [code(o.get("recv", "")) for o in obs[3:3 + nl]]
     rcpt_ok = [c == 250 for c in rc]
     data1 = obs[3 + nl].get("recv", "")
     rest = obs[4 + nl].get("recv", "")
+    if cell.get("sess") in ("first", "mid") and rest.endswith("250 OK\r\n"):
+        rest = rest[:-len("250 OK\r\n")]          # the answer to the delimiting NOOP
     replies = []
     if code(data1) == 354:
         for l in rest.split("\r\n"):
@@ -302,7 +415,7 @@ def observe(cell, obs, before, after):
         for _ in range(max(dlt, 0)):
             gains.append(k2)
     lost = [k2 for k2, v in b.items() if a.get(k2, 0) < v]
-    return {"rcpt": rcpt_ok, "rcpt_codes": rc, "flags": flags, "gains": gains, "lost": lost,
+    return {"mail_ok": mail_ok, "rcpt": rcpt_ok, "rcpt_codes": rc, "flags": flags, "gains": gains, "lost": lost,
             "odd_replies": per is None, "users": after.get("users") or [], "data_first": code(data1), "replies": replies}
 
 
@@ -348,7 +461,7 @@ COQ_POLICY_DEFS = r"""
 From Raven Require Import Base.Enum Model.Policy Spec.Policy.
 Local Open Scope Z_scope.
 Record pcase := mkCase { c_cfg : config; c_db : db; c_lines : list str; c_intended : option (list str);
-  c_msg : message; o_rcpt : list bool; o_flags : list bool; o_gains : list (store * str); o_users : list user; o_nreplies : nat }.
+  c_msg : message; o_rcpt : list bool; o_flags : list bool; o_gains : list (store * str); o_users : list user; o_nreplies : nat; o_mail : bool }.
 Definition gain_eqb (a b : store * str) := store_eqb (fst a) (fst b) && str_eqb (snd a) (snd b).
 Definition count_g (g : store * str) (l : list (store * str)) := length (filter (gain_eqb g) l).
 Definition same_gains (a b : list (store * str)) :=
@@ -385,6 +498,27 @@ Definition parsed_verdict (c : pcase) : nat :=
   | None => 8%nat
   | Some addrs => if spec_ok_on c addrs then 0%nat else match class_on c addrs with O => 9%nat | k => k end
   end.
+(* a session: its transactions in order, all on one connection, model run from the reset state with the
+   database threaded by the model itself *)
+Fixpoint all2 {A B} (f : A -> B -> bool) (a : list A) (b : list B) : bool :=
+  match a, b with [], [] => true | x :: a', y :: b' => f x y && all2 f a' b' | _, _ => false end.
+Inductive oreply := OM (b : bool) | OR (b : bool) | OD (n : nat).
+Definition observed_of (c : pcase) : list oreply := OM (o_mail c) :: map OR (o_rcpt c) ++ [OD (o_nreplies c)].
+Definition reply_matches (r : sreply) (o : oreply) : bool :=
+  match r, o with
+  | SR_mail a, OM b => Bool.eqb a b
+  | SR_rcpt r, OR b => Bool.eqb (rcpt_ok r) b
+  | SR_data d, OD n => Nat.eqb (reply_count (do_reply d)) n
+  | _, _ => false
+  end.
+Definition session_ok (cs : list pcase) : bool :=
+  match cs with
+  | [] => true
+  | c0 :: _ =>
+      let cmds := flat_map (fun c => block_cmds (c_lines c, c_msg c)) cs in
+      let '(rs, (s, d)) := run_session (c_cfg c0) (s_reset, c_db c0) cmds in
+      all2 reply_matches rs (flat_map observed_of cs)
+  end.
 Fixpoint positions (i : nat) (l : list bool) : list nat :=
   match l with [] => [] | b :: l' => if b then positions (S i) l' else i :: positions (S i) l' end.
 """
@@ -399,10 +533,10 @@ def coq_case(cell, before, ob):
     gains = C.coq_list(["(%s, %s)" % (coq_store(g[0]), C.coq_str(C.unlatin(g[1]))) for g in ob["gains"]])
     users = C.coq_list(["(mkUser %s %s %s)" % (C.coq_str(C.unlatin(n)), C.coq_str(C.unlatin(d)), C.coq_bool(bool(en)))
                         for (n, d, en, _) in ob["users"]])
-    return "(mkCase %s %s %s %s %s %s %s %s %s %d)" % (
+    return "(mkCase %s %s %s %s %s %s %s %s %s %d %s)" % (
         coq_cfg(cell["cfg"]), coq_db(before), lines, intended, coq_msg(cell),
         C.coq_list([C.coq_bool(x) for x in ob["rcpt"]]), C.coq_list([C.coq_bool(x) for x in ob["flags"]]), gains, users,
-        len(ob["replies"]))
+        len(ob["replies"]), C.coq_bool(ob["mail_ok"]))
 
 
 def parse_nat_list(log, name):
@@ -455,12 +589,15 @@ def eval_policy_cases(tag, cases):
 # ---------------------------------------------------------------------------
 # suites
 
-def run_policy(chk, cells, corpus_cells):
-    """corpus_cells: list of (class, cell); they run first, one world each."""
+def run_policy(chk, cells, corpus_cells, sessions=()):
+    """corpus_cells: list of (class, cell); they run first, one world each. sessions: lists of cells that share
+    a connection; they stay together, 12 sessions per world."""
     per_world = 40 if chk.tier == "quick" else 60
     worlds = [[c] for (_, c) in corpus_cells]
     for i in range(0, len(cells), per_world):
         worlds.append(cells[i:i + per_world])
+    for i in range(0, len(sessions), 12):
+        worlds.append([c for sess in sessions[i:i + 12] for c in sess])
     scen = []
     for w in worlds:
         ops = list(POP) + [dict(op="c17_view")]
@@ -499,16 +636,39 @@ def run_policy(chk, cells, corpus_cells):
     if r is None:
         chk.broken_obligation("in-Coq evaluation of the C17 policy cases failed:\n" + log[-2500:], {"suite": "policy"})
         return flat, None
-    return flat, r
+    # sessions: the same cases grouped by connection, run through the session model
+    groups, cur = [], None
+    for idx, (cell, before, ob, _) in enumerate(flat):
+        if cell.get("sess") == "first":
+            cur = [idx]
+            groups.append(cur)
+        elif cell.get("sess") in ("mid", "last") and cur is not None:
+            cur.append(idx)
+        else:
+            cur = None
+    sbad, log = eval_sessions([[terms[i] for i in g] for g in groups])
+    if sbad is None:
+        chk.broken_obligation("in-Coq evaluation of the C17 sessions failed:\n" + log[-2500:], {"suite": "sessions"})
+        return flat, None
+    return flat, r + (groups, sbad)
+
+
+def plain_cell(c):
+    return {k: c[k] for k in ("cfg", "lines", "raw", "hs", "sess", "conn", "kind") if k in c}
 
 
 def payload_of(cell, before, ob):
-    return {"suite": "policy", "population": "default", "db_before": {"users": before.get("users"), "roles": before.get("roles"),
-            "usage": {k: v.get("usage") for k, v in (before.get("stores") or {}).items()}},
-            "cell": {"cfg": cell["cfg"], "lines": cell["lines"], "raw": cell["raw"], "hs": cell["hs"]},
-            "observed": {"rcpt_codes": ob["rcpt_codes"], "data_first": ob["data_first"], "replies": ob["replies"],
-                         "accepted": ob["flags"], "gains": [list(map(str, g)) for g in ob["gains"]]},
-            "replay": "bin/check C17 replay <this file>"}
+    p = {"suite": "policy", "population": "default", "db_before": {"users": before.get("users"), "roles": before.get("roles"),
+         "usage": {k: v.get("usage") for k, v in (before.get("stores") or {}).items()}},
+         "cell": plain_cell(cell),
+         "observed": {"mail_ok": ob["mail_ok"], "rcpt_codes": ob["rcpt_codes"], "data_first": ob["data_first"], "replies": ob["replies"],
+                      "accepted": ob["flags"], "gains": [list(map(str, g)) for g in ob["gains"]]},
+         "replay": "bin/check C17 replay <this file>"}
+    if cell.get("session_all"):
+        # the transaction is part of a session: the whole session (same connection, no RSET) is the replay
+        p["session"] = [plain_cell(c) for c in cell["session_all"]]
+        p["position_in_session"] = cell["session_all"].index(cell)
+    return p
 
 
 def load_corpus():
@@ -709,10 +869,11 @@ def run(chk):
     n_direct = run_direct(chk)
     corpus = load_corpus()
     cells = make_cells(chk)
-    flat, r = run_policy(chk, cells, corpus)
+    sessions = make_sessions(chk)
+    flat, r = run_policy(chk, cells, corpus, sessions)
     if r is None:
         return
-    model_bad, spec_bad, classes, pverdicts = r
+    model_bad, spec_bad, classes, pverdicts, sess_groups, sess_bad = r
     mb, sb = set(model_bad), set(spec_bad)
     # does the implementation itself still mis-parse the two shape lines?
     shape_lines = {t: (a, x) for (t, a, x) in rcpt_classes("x") if t in SHAPE_CLASS}
@@ -743,6 +904,10 @@ def run(chk):
         cell, before, ob, ccls = flat[i]
         what = "policy cell: lines=%r cfg=%r -> RCPT %r, accepted %r, gains %r; the documented policy says otherwise" % (
             [a for (_, a, _) in cell["lines"]], {k: v for k, v in cell["cfg"].items()}, ob["rcpt_codes"], ob["flags"], ob["gains"])
+        if cell.get("session_all"):
+            k = cell["session_all"].index(cell)
+            what = "transaction %d of a session (same connection, no RSET) after %r: %d DATA replies; " % (
+                k + 1, [c.get("kind") for c in cell["session_all"][:k]], len(ob["replies"])) + what
         labs = labels_of(i, cell)
         if labs:
             for cls in labs:
@@ -768,6 +933,23 @@ def run(chk):
             chk.broken_obligation("correspondence policy no longer checks: implementation differs from the model on lines=%r cfg=%r: RCPT %r, replies %r, accepted %r, gains %r, users %r" % (
                 [a for (_, a, _) in cell["lines"]], cell["cfg"], ob["rcpt_codes"], ob["replies"], ob["flags"], ob["gains"],
                 [u[:3] for u in ob["users"]]), payload_of(cell, before, ob))
+    # sessions the session model (run_session from the reset state) does not reproduce although every one of
+    # their transactions agrees with the transaction model: only the MAIL replies / the threading can differ
+    n_sess_only = 0
+    for gi in sess_bad:
+        g = sess_groups[gi]
+        if any(i in sb or i in mb for i in g):
+            continue
+        n_sess_only += 1
+        if n_sess_only <= 2 and not unclassified_spec:
+            cell, before, ob, _ = flat[g[0]]
+            chk.broken_obligation("correspondence session no longer checks: the replies of session %r (MAIL %r) differ from run_session" % (
+                [flat[i][0].get("kind") for i in g], [flat[i][2]["mail_ok"] for i in g]),
+                {"suite": "sessions", "cells": [payload_of(*flat[i][:3]) for i in g]})
+    chk.cov["sessions"] = len(sess_groups)
+    chk.cov["session_transactions"] = sum(len(g) for g in sess_groups)
+    chk.cov["session_first_kinds"] = {k: sum(1 for g in sess_groups if flat[g[0]][0].get("kind") == k) for k in SESSION_KINDS}
+    chk.cov["sessions_not_reproduced"] = len(sess_bad)
     for (cell, before, ob, _) in flat:
         if ob["lost"]:
             chk.violation("a delivery removed messages from %r" % (ob["lost"],), payload_of(cell, before, ob))
@@ -789,7 +971,10 @@ def run(chk):
                        "Configuration product: default_folder{INBOX,Archive,Spam} x allowed_domains{empty,match,no-match} x "
                        "reject_unknown_user x max_recipients{1,2,100} x max_size{len-1,len,big} x quota{off,under,over,=size,=size-1} "
                        "(810; quick: seeded sample, thorough: all) x 30 recipient classes (incl. '_'/'%'/case twins of role addresses and users) x 19 spam-header variants (rotating), "
-                       "plus multi-recipient transactions; direct-call suites for parseRcptTo, address splitting, isSpamByHeaders, "
+                       "plus multi-recipient transactions; plus multi-transaction sessions on one connection without RSET "
+                       "(first transaction accepted / over size 552 / unparsable 554 / no accepted recipient 503 / recipient limit / "
+                       "unknown user, then a second and third transaction to other recipients; every transaction compared as a "
+                       "fresh transaction on the database view before it, and the whole session with run_session); direct-call suites for parseRcptTo, address splitting, isSpamByHeaders, "
                        "ParseMessage header map, config.Validate")
     chk.cov["cells_accepting"] = sum(1 for f in flat if any(f[2]["flags"]))
     chk.cov["cells_refusing_all"] = sum(1 for f in flat if not any(f[2]["flags"]))
@@ -810,10 +995,14 @@ def replay(path):
     if d.get("suite") != "policy" and "cell" not in d:
         print(json.dumps(d, indent=1))
         return 0
-    cell = d["cell"]
-    cell["lines"] = [tuple(x) for x in cell["lines"]]
-    ops = list(POP) + [dict(op="c17_view")] + cell_ops(0, cell)
+    cells = d.get("session") or [d["cell"]]
+    ops = list(POP) + [dict(op="c17_view")]
+    for i, cell in enumerate(cells):
+        cell["lines"] = [tuple(x) for x in cell["lines"]]
+        ops += cell_ops(i, cell)
     res = C.run_ops(ops)
     for o, b in zip(ops[len(POP):], res["obs"][len(POP):]):
+        if o.get("op") == "sleep":
+            continue
         print(json.dumps(o)[:160], "->", json.dumps(b)[:600])
     return 0
